@@ -44,7 +44,7 @@ func main() {
 					msizes = append(msizes, m)
 				}
 			}
-			msizes = append(msizes, fsz, fsz-1, fsz+1, 1<<20, rng.Pick(255, 256, 257, 4095, 4096, 4097, 65535, 65536, 65537), rng.Pick(0, 1, 4, 11, 23))
+			msizes = append(msizes, fsz, fsz-1, fsz+1, 1<<20, rng.Pick(255, 256, 257, 4095, 4096, 4097, 65535, 65536, 65537), rng.Pick(0, 1, 4, 11, 12, 18, 19, 20, 21, 22, 23), rng.Range(12, 23))
 			for _, msize := range msizes {
 				if msize < 0 {
 					continue
@@ -93,11 +93,23 @@ func one(r *rep.Report, rng *prng.R, orig *p9p.Fcall, msize int, live bool) {
 	if !live {
 		cancel()
 	}
-	err := ch.WriteFcall(ctx, fc)
+	var err error
+	panicked := func() (p bool) {
+		defer func() {
+			if recover() != nil {
+				p = true
+			}
+		}()
+		err = ch.WriteFcall(ctx, fc)
+		return false
+	}()
 	cancel()
 	out := conn.Written
 	var res sx.S
 	switch {
+	case panicked:
+		res = sx.L(sx.Sym("panic"))
+		r.Fail("channel.WriteFcall.panic", fmt.Sprintf("WriteFcall panicked (%v, msize %d)", orig.Type, msize), c, nil)
 	case err == nil:
 		res = sx.L(sx.Sym("sent"))
 	case err == context.Canceled:
